@@ -48,6 +48,20 @@ def gen_lineage(r):
     return infos, alt, dotted
 
 
+def _acceptor(m):
+    """Does the flattened model accept the text completely?  (Workload shaping only.)"""
+    levels = [{'items': a.spec['items']} for a in _levels(m)]
+
+    def accept(text):
+        mm = model_module(levels, len(levels) - 1, 'late')
+        if isinstance(mm, tuple):
+            return False
+        env = U.Env('ref', allow_nest=False)
+        out = U.run_inline(env, lambda ctx: _call(mm, 'parse', text, True, ctx, budget=30_000))
+        return 'ok' in out
+    return accept
+
+
 def _levels(m):
     out = []
     while m is not None:
@@ -74,7 +88,7 @@ def gen_plan(seed, useed, index, verif_seed):
     fr = rngm.stream(seed, 'faults')
     infos, alt, dotted = gen_lineage(ur)
     for m in infos + [alt]:
-        m.texts = C.make_texts(tr, m, n=3)
+        m.texts = C.make_texts(tr, m, n=3, accept=_acceptor(m))
     mods = {m.id: module_entry(m) for m in infos + [alt]}
     texts = {m.id: m.texts for m in infos + [alt]}
     ops = []
